@@ -150,7 +150,9 @@ pub fn normalised_args(directive: &str, args: &[String]) -> Vec<String> {
 pub fn attr_node(a: &MAttr) -> Node {
     let mut n = Node::new("attr");
     n.prop("directive", &a.directive);
-    n.prop("args", &normalised_args(&a.directive, &a.arg_values()).join("\u{1f}"));
+    let args = normalised_args(&a.directive, &a.arg_values());
+    n.prop("args", &args.join("\u{1f}"));
+    n.prop("argc", &args.len().to_string());
     n
 }
 
